@@ -288,6 +288,8 @@ def typ_of(n, u):
         return "S" if n[1] is None else "P"
     if k == "join":
         return "T"
+    if k == "pins":
+        return typ_of(n[3], u)
     if k == "mle":
         out = n[1].split("->")[1]
         return {0: "S", 1: "D" if len(u.shape) == 1 else "P", 2: "D"}[len(out)]
@@ -361,6 +363,18 @@ def _jlin(spec, v, E):
         m = nx.arr(spec[1])
         n0, n1 = u.shape
         M = np.kron(m, np.eye(n1)) if spec[2] == 0 else np.kron(np.eye(n0), m)
+        return E.matmul(_tilemat(M, u.size, u.size), v, "D")
+    if k == "harm":
+        # convolution-like operator  T^-1 diag(w) T  along space 0, T = Hartley (real) / Fourier (complex)
+        # transform in the library's volume convention, written out as explicit matrices
+        n0 = u.shape[0]
+        kx = np.outer(np.arange(n0), np.arange(n0)) / n0
+        if u.cplx:
+            T = u.dvol[0] * np.exp(-2j * np.pi * kx)
+        else:
+            T = u.dvol[0] * (np.cos(2 * np.pi * kx) - np.sin(2 * np.pi * kx))
+        C = np.linalg.inv(T) @ np.diag(nx.arr(spec[1])) @ T
+        M = C if len(u.shape) == 1 else np.kron(C, np.eye(u.shape[1]))
         return E.matmul(_tilemat(M, u.size, u.size), v, "D")
     raise ValueError(k)
 
@@ -549,6 +563,15 @@ def _jx0(n, E):
             return _jx(n[2], E)
         finally:
             E.local.pop()
+    if k == "pins":
+        # outer expression with its input component `key` replaced by the value of the inner expression
+        v = _jx(n[2], E)
+        saved = E.x[n[1]]
+        E.x[n[1]] = v
+        try:
+            return _jx(n[3], E)
+        finally:
+            E.x[n[1]] = saved
     if k == "mle":
         a = _jx(n[2], E)
         b = E.vec(n[3]["f"]) if isinstance(n[3], dict) else _jx(n[3], E)
@@ -664,6 +687,12 @@ def _linop(spec, dom, u):
         return ift.MatrixProductOperator(dom, nx.arr(spec[1]), flatten=True)
     if k == "matsp":
         return ift.MatrixProductOperator(dom, nx.arr(spec[1]), spaces=(spec[2],))
+    if k == "harm":
+        T = (ift.FFTOperator if u.cplx else ift.HartleyOperator)(dom, space=0)
+        w = nx.arr(spec[1])
+        w = w.astype(np.complex128 if u.cplx else np.float64)
+        diag = ift.DiagonalOperator(ift.makeField(T.target[0], w), domain=T.target, spaces=0)
+        return T.inverse @ diag @ T
     raise ValueError(k)
 
 
@@ -848,6 +877,10 @@ class _Build:
             finally:
                 self.local.pop()
             return sub.ducktape(n[1])
+        if k == "pins":
+            inner = self.b(n[2]).ducktape_left(n[1])
+            outer = self.b(n[3])
+            return outer @ inner        # target {key} != outer.domain  ->  Operator.partial_insert
         if k == "mle":
             a = self.b(n[2])
             if isinstance(n[3], dict):
@@ -989,6 +1022,8 @@ def _children(n):
         return [n[2], n[3]]
     if k in ("vdot", "join", "esum"):
         return [n[1], n[2]]
+    if k == "pins":
+        return [n[2], n[3]]
     if k == "mle":
         return [n[2]] + ([] if isinstance(n[3], dict) else [n[3]])
     raise ValueError(k)
@@ -1014,6 +1049,8 @@ def stats(n, acc):
         acc["nonlin"] += 1
     if k == "bin":
         acc["kinds"].add("bin:" + n[1])
+    if k in ("lin", "linpre"):
+        acc["kinds"].add("lin:" + n[1][0])
     if k == "energy":
         acc["kinds"].add("energy:" + n[1][0])
     if k == "mle":
@@ -1034,6 +1071,12 @@ def varkeys(n, acc, local=None):
         return
     if n[0] == "duckr":
         varkeys(n[2], acc, n[1])
+        return
+    if n[0] == "pins":
+        varkeys(n[2], acc, local)
+        outer = set()
+        varkeys(n[3], outer, local)
+        acc.update(outer - {n[1]})
         return
     for c in _children(n):
         varkeys(c, acc, local)
@@ -1065,13 +1108,6 @@ def _imaginizer_rejects(exc):
         and "raise ValueError" in (fr.line or "")
 
 
-def _rep(u, y):
-    y = np.asarray(y).reshape(-1)
-    if u.cplx:
-        return np.concatenate([y.real, y.imag])
-    return y
-
-
 def _metric_oracle(u, tree, keys, J):
     """sum over the energies at the root of J_e^H M_e J_e, by the closed-form Fisher metric"""
     k = tree[0]
@@ -1097,12 +1133,6 @@ def _metric_oracle(u, tree, keys, J):
         a = _metric_oracle(u, tree[1], keys, J)
         return None if a is None else a + np.eye(a.shape[0])
     return None
-
-
-def _holomorphic(n):
-    if n[0] in ("real", "imag", "conj", "vdot", "vdotf"):
-        return False
-    return all(_holomorphic(c) for c in _children(n))
 
 
 def _compare(u, tree, keys, ora, plain, lin, wm, mode):
@@ -1398,7 +1428,10 @@ def _linspec(cx, typ):
     r = cx.r
     if typ != "D":
         return ["scal", cx.num(nonzero=True)]
-    k = r.ch(["scal", "diag", "mat"] + (["matsp"] if cx.rank2 else []))
+    k = r.ch(["scal", "diag", "mat"] + (["matsp"] if cx.rank2 else [])
+             + (["harm"] if cx.u["spaces"][0][0] == "rg" else []))
+    if k == "harm":
+        return ["harm", cx.vec(cx.u["spaces"][0][1])]
     if k == "scal":
         return ["scal", cx.num(nonzero=True)]
     if k == "diag":
@@ -1502,6 +1535,8 @@ def gen(cx, typ, depth):
             opts += ["get", "get"]
         if f.get("duckr") and cx.u["keys"] and cx.local is None:
             opts += ["duckr"]
+        if f.get("pins") and cx.u["keys"] and cx.local is None:
+            opts += ["pins", "pins"]
         if f.get("mle"):
             opts += ["mle"] * 7
         if f.get("jaxop"):
@@ -1531,6 +1566,19 @@ def gen(cx, typ, depth):
             finally:
                 cx.local = None
             return ["duckr", key, sub]
+        if w == "pins":
+            key = r.ch(cx.u["keys"])
+            inner = gen(cx, "D", depth - 1)
+            # (LinearOperator @ LinearOperator insists on matching domains: the outer expression is made
+            # a genuine nonlinear Operator, for which `@` performs the partial insertion)
+            o = r.ch(["mul", "mul", "add", "sub"])
+            v = ["var", key, r.i(0, 2)]
+            if o != "mul":
+                v = ["ptw", r.ch(["sinh", "tanh", "exp", "arctan"]), [], v, 0]
+            side = [v, gen(cx, "D", r.i(0, depth - 1))]
+            if r.b():
+                side.reverse()
+            return ["pins", key, inner, ["bin", o] + side]
         if w == "mle":
             ss = "ij,ij->ij" if cx.rank2 else "i,i->i"
             a = gen(cx, "D", depth - 1)
@@ -1676,7 +1724,7 @@ def _gen_energy(cx, depth):
     return ["energy", spec, sub, r.i(0, 1)]
 
 
-_ALLKINDS = {"var", "ptw", "linpre", "lin", "neg", "mulc", "addc", "subc", "rsubc", "divc", "rdivc", "powc",
+_ALLKINDS = {"pins", "var", "ptw", "linpre", "lin", "neg", "mulc", "addc", "subc", "rsubc", "divc", "rdivc", "powc",
              "rpowc", "addf", "subf", "mulf", "divf", "real", "imag", "conj", "bin", "sum", "integrate", "bcast",
              "bcastS", "vdot", "vdotf", "join", "get", "duckr", "mle", "jaxop", "energy", "esum", "escale", "ham"}
 
@@ -1796,7 +1844,7 @@ def ptw_table_cases(tier, seed):
     return res
 
 
-OPF = {"T": True, "duckr": True}
+OPF = {"T": True, "duckr": True, "pins": True}
 NT = ("non-trivial = tree depth >= 3 (>= 2 levels above the leaves) with >= 1 nonlinear node (ptw, power, "
       "reciprocal/division, operator product, einsum, jax function, energy) and >= 1 binary node "
       "(operator*+-/**operator, vdot, join of two keys, energy sum); distinct = sha1 of the canonical recipe")
